@@ -532,6 +532,11 @@ def build_jobs(tier, seed, kinds, check_range, e1_kinds):
             for pop in populations(tier, 3):
                 cases.append((3, pop, kind, False))
                 cases.append((3, pop, kind, True))
+        elif kind in kinds[:3]:
+            # three levels of merging over sparse leaves: row directories of the intermediate levels come into being
+            # while the cascade is under way
+            for pop in [(63,), (0, 63), (9, 18, 27), (7, 56), (5, 23, 40, 62)]:
+                cases.append((3, pop, kind, False))
     # other entry points that reach the same merger: the command line and Builder.cascade
     for kind in kinds:
         if kind.startswith("fits-F32") and kind != "fits-F32":
@@ -558,7 +563,7 @@ def run(tier, seed):
     rep = Report(PROP, tier, seed, "model_checking")
     kinds = ["npy-F32", "npy-U8", "png-RGBA", "png-RGB", "fits-F32", "npy-F32i", "npy-I16", "npy-F16x3"] + (["npy-F64"] if tier == "thorough" else [])
     rep.rule = (
-        "E2: start depth 1 (all 16 leaf subsets) and 2 (%d sparse populations), formats %r, without a filter and with one accepting every populated tile: "
+        "E2: start depth 1 (all 16 leaf subsets) and 2 (%d sparse populations) and 3 (5 sparse chains for three kinds; 7 populations for all kinds in the thorough tier), formats %r, without a filter and with one accepting every populated tile: "
         "serial cascade vs reference merge, pixel-exact. E1: real TileMerger under the virtual scheduler, all interleavings, terminal tree = serial tree. "
         "states = distinct canonical states of the E1 explorations; non-trivial = sparse population" % (len(populations(tier, 2)), kinds)
     )
